@@ -107,8 +107,7 @@ def check_roundtrip(j) -> None:
         sub.instructions.pop()
     # the same object serialised again after it was given to another application (instantiate / app_id setter):
     # the bytes must follow the object's current state, not an earlier serialisation
-    for how in ("instantiate", "setter"):
-        new_id = (j["app_id"] * 7 + (1 if how == "instantiate" else 2)) % 65536
+    for how, new_id in (("instantiate", (j["app_id"] * 7 + 1) % 65536), ("setter", (j["app_id"] * 7 + 2) % 65536), ("instantiate", 0), ("setter", 0)):
         try:
             if how == "instantiate":
                 sub.instantiate(new_id, {})
